@@ -116,6 +116,17 @@ func (m *c01mon) after(s *sim, st rig.StepResult, ctx stepCtx) {
 		}
 		m.feat["message-below-expected:"+ctx.msgType] = true
 	}
+	// a SequenceReset either leaves the expected number alone or moves it forward to its NewSeqNo;
+	// one that is refused or ignored does not use up a number (nothing is kept that could be
+	// delivered in the same step: with kept messages the number may move on past NewSeqNo)
+	if ctx.kind == "in" && ctx.msgType == "4" && ctx.keptBefore == 0 && ctx.loggedOnBefore && !m.resetInStep(s, st) {
+		T := s.r.T()
+		ns, ok := fixwire.GetInt(ctx.fields, 36)
+		// (a rejected SequenceReset that itself carried the expected number has used that number up)
+		if T != ctx.tBefore && !(ok && ns > ctx.tBefore && T == ns) && !(ctx.hasSeq && ctx.seq == ctx.tBefore && T == ctx.tBefore+1) {
+			vk.Violation(s.t, c, "C01/expected-number-moved-by-a-refused-sequence-reset", "SequenceReset (MsgSeqNum %d, NewSeqNo %d, GapFillFlag %q) arrived in state %s while %d was expected; afterwards %d is expected\n%s", ctx.seq, ns, fixwire.GetS(ctx.fields, 123), ctx.stateBefore, ctx.tBefore, T, s.history())
+		}
+	}
 	// positive half: an in-sequence, well-formed application message in a logged-on state is delivered in this very step
 	if ctx.kind == "in" && ctx.hasSeq && ctx.loggedOnBefore && !fixwire.IsAdminMsgType(ctx.msgType) && ctx.seq == ctx.tBefore && ctx.wellFormed {
 		n := 0
